@@ -216,6 +216,16 @@ inline void checkMsgPackDoc(Ctx& C, const MValue& mGiven, const MpOpts& o) {
   std::string bytes = "previous";
   size_t r = serializeMsgPack(v, bytes);
   if (r != bytes.size()) C.failKey(kop + "|dst=std::string", "count", "returned " + std::to_string(r) + " for " + std::to_string(bytes.size()) + " bytes");
+  // the same document built from linked strings (const char* values and keys) gives the same bytes
+  if (!o.light && !o.builder && o.sto == 0 && bytes.size() < 4096) {
+    JsonDocument dl;
+    if (build(dl.to<JsonVariant>(), m, true) && !dl.overflowed()) {
+      std::string b2;
+      size_t r2 = serializeMsgPack(dl, b2);
+      if (b2 != bytes || r2 != b2.size() || measureMsgPack(dl) != bytes.size())
+        C.failKey(kop + "|strings=linked", "linked-differs", "linked strings give " + hex(b2.substr(0, 48)) + " instead of " + hex(bytes.substr(0, 48)));
+    }
+  }
   // exactly one object
   MValue D;
   size_t consumed = 0;
